@@ -126,7 +126,7 @@ MCNext ==
         \/ ISrvConnStop(c)
         \/ ICliCloseDo(c) \/ ICutDo(c) \/ IProxyDo(c)
         \/ VCliCloseBegin(c) \/ VCut(c)
-        \/ \E m \in {"pass", "refuse"} : VSetProxy(c, m)
+        \/ \E m \in {"pass", "refuse", "hold"} : VSetProxy(c, m)
   \/ ISrvShutdownDo \/ ISrvCloseDo
   \/ VSrvShutdown \/ VSrvCloseBegin \/ GenFinish
 
